@@ -366,6 +366,12 @@ bool array_file_op(Ctx &c, const Op &op, int oi, vnadata_t **obj, ArrayModel *mo
 	    ncb = g_sim.callbacks.size();
 	    lc.done();
 	    e = lc.saved_errno;
+	    // vnaerr(3): a failing fopen / write / fclose is a system error and is reported ("fopen: name: ..."): when the save was failed by
+	    // the simulated stream (not by an allocation) and the object has an error function, that function must have been called
+	    if (c.c11 && attempt == 0 && rc != 0 && !alloc_only && (g_sim.fired_write_err || g_sim.fired_close_err || g_sim.fired_open) && c.cb_installed && ncb == 0 && !use_fsave) {
+		c.violate("c11", "save:silent", strf("vnadata_save(\"%s\") failed on a stream error (errno %s) without calling the error function", name.c_str(), errno_name(e)));
+		return true;
+	    }
 	    // failed because of the injected fault: repeat once the fault is gone
 	    if (attempt == 0 && fired && (rc != 0 || crc != 0) && !c.violated) { c.count("probe.save_faulted"); fault_failed(c, "vnadata_save", e, alloc_only && rc != 0); pend_err = e; pend_alloc = alloc_only && rc != 0; continue; }
 	    if (attempt == 1 && rc == 0 && crc == 0) fault_recovered(c, "vnadata_save", pend_err, pend_alloc);
@@ -553,6 +559,7 @@ bool array_file_op(Ctx &c, const Op &op, int oi, vnadata_t **obj, ArrayModel *mo
 	    obj[q] = vnadata_alloc(op.I(1) ? sim_error_fn : nullptr, nullptr);
 	    lc.done();
 	    models[q] = ArrayModel();
+	    c.restart_cb = op.I(1) ? 1 : 0;	// (the engine updates its per-object "error function installed" flags from this)
 	}
 	c.count("fault.restart.fired");
 	return true;
